@@ -412,6 +412,9 @@ pub fn bfs_check<const N: usize>(prop: &str, o: &Opts, rep: &mut Report) {
                 for s in scripts_for(st.len) {
                     probes.push(Act::IntoIter(s));
                 }
+                for s in Script::all_up_to(st.len.min(4)) {
+                    probes.push(Act::IntoIterClone(s));
+                }
                 for a in 0..=st.len {
                     for b in a..=st.len {
                         for s in drain_scripts(N, b - a) {
